@@ -2,12 +2,13 @@
 PROPERTY = "C09"
 META = {
     "category": "proof",
-    "technique": "contract-based deductive verification of optimization.cull (closure under dependencies, pointwise identity, dependency map) from the real AST, z3; bounded native runs of every optimisation against a reference evaluator",
+    "technique": "contract-based deductive verification of both cull implementations (optimization.cull and _task_spec.cull: closure under dependencies, pointwise identity, dependency map) from the real AST, z3; bounded native runs of every optimisation against a reference evaluator",
     "text": "Proof for every graph that cull returns a sub-graph that contains the requested keys, is closed under dependencies, agrees pointwise with the input and returns exactly each kept key's dependency list (hence, by the meta-lemma `a dependency-closed sub-graph with identical tasks denotes the same values`, preserves the requested values). inline, inline_functions, fuse_linear, fuse (parameter grid, renaming on/off/custom), fuse_linear_task_spec and resolve_aliases rewrite task terms in a dynamically typed universe: bounded only (all graphs <= 4 nodes, random 5-6 node graphs, hyphenated keys to provoke renaming collisions) against a reference evaluator.",
     "note": "Trusted: VC generator, z3; get_dependencies ASSUMED to return the dependency list of a key (uninterpreted function of the task); flatten/set(keys) modelled. Term-rewriting optimisations are bounded only.",
     "design_ref": "DESIGN.md §5.5",
 }
-MODULES = ["contracts.optimization"]
+MODULES = ["contracts.optimization", "contracts.taskspec"]
+ONLY = {"contracts.taskspec": ["cull"]}
 LEVEL = "proof"
 EXPLANATION = "cull proved; the term-rewriting optimisations bounded against a reference evaluator"
 TRUSTED = ["VC generator /verif/vf", "z3", "meta-lemma: closed + pointwise identical sub-graph denotes the same values", "reference evaluator of legacy graphs"]
